@@ -15,6 +15,12 @@ What is carried (DESIGN 2.3): for every class deriving from ``BaseTransform``
     ``if <integer>: v = e else: v = e'`` selection) -> a definition in ``Option`` (``none`` = IndexError);
 for ``BaseTransform`` itself a record of the abstract methods, ``deriv_inverse``,
 ``deriv2_inverse``, ``deriv3_inverse`` and ``_convert_inf``.
+Round 3: ``set_maximum_parameter_b`` of the b-scaled classes statement by statement (``if self.b is None:``, a local or the
+attribute taking ``np.max(x)``, ``if <condition>: raise ValueError`` before or after the assignment of the attribute)
+-> ``set_maximum_parameter_b`` (the attribute after the call, also after a rejected one, over ``Option K``) and
+``set_maximum_parameter_b_raises``; ``if <condition>: warnings.warn(msg, Category,
+stacklevel=n)`` inside a method -> ``<m>_warns`` (the condition, under the assignments before it) and
+``<m>_warn_stacklevel``; the category travels through ``warnKindOf``.
 
 The vocabulary is deliberately small: straight-line code (``Assign``, ``AugAssign``,
 ``Return``, ``With`` around it, ``if <guard>: raise``, ``if self.<flag>: v = ...``),
@@ -291,6 +297,8 @@ class MethodTranslator:
             raise Untranslatable(f"{c.name}.{self.fn.name}: unknown method {name} ({_where(node)})")
         self.deps.add(name)
         info = owner.out[name]
+        if info.get("warns") is not None:
+            raise Untranslatable(f"{c.name}.{self.fn.name}: calls {name}, which issues a warning ({_where(node)})")
         lname = _ident(name)
         head = f"{owner.name}.{lname}"
         recv = []
@@ -458,8 +466,14 @@ class MethodTranslator:
             self.flush(items)
             items.append(("guard", text))
             return False
-        # warning only
+        # warning only:  if cond: warnings.warn(msg, Category, stacklevel=n)
         if not st.orelse and all(isinstance(b, ast.Expr) and ast.unparse(b.value).startswith("warnings.warn(") for b in body):
+            if len(body) != 1:
+                raise Untranslatable(f"{who}: several warnings under one condition ({_where(st)})")
+            cat, level = self.warn_call(body[0].value)
+            text = self.cond(t)
+            self.flush(items)
+            items.append(("warn", text, cat, level))
             return False
         # flag:  if self.trim_inf: v = e
         if (not st.orelse and self.selfname and _is_self_attr(t, self.selfname)
@@ -472,6 +486,27 @@ class MethodTranslator:
                 self.let(items, v, f"if {flag} then {self.par(self.tr(b.value), P_ADD)} else {_ident(v)}")
             return False
         raise Untranslatable(f"{who}: if {ast.unparse(t)!r} ({_where(st)})")
+
+    def warn_call(self, call):
+        """`warnings.warn(msg, Category, stacklevel=n)` -> (category name, stacklevel); the message is not carried."""
+        who = f"{self.cls.name}.{self.fn.name}"
+        if not (isinstance(call, ast.Call) and 1 <= len(call.args) <= 2):
+            raise Untranslatable(f"{who}: warnings.warn call {ast.unparse(call)[:60]!r}")
+        cat = "UserWarning"
+        if len(call.args) == 2:
+            if not isinstance(call.args[1], ast.Name):
+                raise Untranslatable(f"{who}: warning category {ast.unparse(call.args[1])!r}")
+            cat = call.args[1].id
+        level = 1
+        for kw in call.keywords:
+            if kw.arg == "stacklevel" and isinstance(kw.value, ast.Constant) and isinstance(kw.value.value, int) \
+                    and not isinstance(kw.value.value, bool) and kw.value.value >= 0:
+                level = kw.value.value
+            elif kw.arg == "category" and isinstance(kw.value, ast.Name):
+                cat = kw.value.id
+            else:
+                raise Untranslatable(f"{who}: warnings.warn keyword {kw.arg!r} ({_where(call)})")
+        return cat, level
 
     # ---- whole method ----------------------------------------------------------
     def run(self):
@@ -609,11 +644,13 @@ def render_value(items, indent="  "):
     return "\n".join(lines)
 
 
-def render_raises(items, indent="  "):
-    """Condition under which the body raises: the guards in order, each under the lets before it."""
-    if not any(it[0] == "guard" for it in items):
+def render_raises(items, indent="  ", kind="guard"):
+    """Condition under which the body raises (kind="guard") / warns (kind="warn"): the conditions in order, each under
+    the lets before it."""
+    items = [it for it in items if it[0] in ("let", kind)]
+    if not any(it[0] == kind for it in items):
         return None
-    last = max(i for i, it in enumerate(items) if it[0] == "guard")
+    last = max(i for i, it in enumerate(items) if it[0] == kind)
     items = items[:last + 1]
 
     def go(i, ind):
@@ -677,6 +714,7 @@ class Module:
                 if not ok:
                     raise Untranslatable(f"{c.name}.set_maximum_parameter_b is not of the form `if self.b is None: ...`")
                 c.b_noop_when_set = True
+                c.setb = self.translate_setb(c, smb)
         # methods reachable from the primary ones (base: every concrete method except transform_1d_grid)
         if c.is_base:
             wanted = [m for m in c.methods if m in ("deriv_inverse", "deriv2_inverse", "deriv3_inverse", "_convert_inf")]
@@ -717,6 +755,98 @@ class Module:
                                    exc=stt.exc, doc=(ast.get_docstring(fn) or "").strip().splitlines()[0:1])
             elif any(ast.unparse(d) == "classmethod" for d in fn.decorator_list):
                 raise Untranslatable(f"{c.name}.{m}: classmethod")
+
+    def translate_setb(self, c: ClassInfo, smb: ast.FunctionDef):
+        """`set_maximum_parameter_b(self, x)`, statement by statement:
+
+            if self.b is None:
+                <name> = np.max(x)                       (a local holding the maximum)            | any order, the attribute
+                self._b = np.max(x)  |  self._b = <name> (the attribute takes the maximum)        | assigned exactly once
+                if <condition>: raise ValueError(...)    (any number of guards)                   |
+
+        In a condition `<name>`, and `self.b` / `self._b` *after* the assignment, denote the maximum `x_max`; `self.b` before
+        the assignment is `None` and is not carried.  Guards standing before the assignment leave the attribute `None` when
+        they raise; guards after it leave the rejected maximum in the attribute.
+        -> dict(before=[guards before the assignment], after=[guards after it], ...)."""
+        who = f"{c.name}.set_maximum_parameter_b"
+        a = smb.args
+        if a.vararg or a.kwarg or a.kwonlyargs or a.posonlyargs or a.defaults or len(a.args) != 2:
+            raise Untranslatable(f"{who}: unsupported signature")
+        xname = a.args[1].arg
+        battr = c.properties["b"]
+        inner = _strip_doc(_strip_doc(smb.body)[0].body)
+        if not inner:
+            raise Untranslatable(f"{who}: empty body")
+
+        def is_max(v):
+            return (isinstance(v, ast.Call) and _is_np(v.func, "max") and len(v.args) == 1 and not v.keywords
+                    and isinstance(v.args[0], ast.Name) and v.args[0].id == xname)
+        mt = MethodTranslator(self, c, smb, "array")
+        mt.locals = set()          # the array argument itself may not be used as a number
+        state = {"assigned": False, "maxnames": set()}
+
+        def field(attr, node, c=c):
+            if (attr == battr or c.properties.get(attr) == battr) and state["assigned"]:
+                return "x_max", P_ATOM
+            raise Untranslatable(f"{who}: self.{attr} ({_where(node)})")
+        mt.field = field
+        orig_tr = mt.tr
+
+        def tr(node):
+            if isinstance(node, ast.Name) and node.id in state["maxnames"]:
+                return "x_max", P_ATOM
+            return orig_tr(node)
+        mt.tr = tr
+        before, after, exc, src = [], [], None, []
+        for st in inner:
+            if isinstance(st, ast.Assign) and len(st.targets) == 1:
+                tg, v = st.targets[0], st.value
+                if isinstance(tg, ast.Name) and tg.id != xname and is_max(v):
+                    state["maxnames"].add(tg.id)
+                    src.append(ast.unparse(st))
+                    continue
+                if (_is_self_attr(tg) and tg.attr == battr and not state["assigned"]
+                        and (is_max(v) or (isinstance(v, ast.Name) and v.id in state["maxnames"]))):
+                    state["assigned"] = True
+                    src.append(ast.unparse(st))
+                    continue
+                raise Untranslatable(f"{who}: assignment {ast.unparse(st)!r} ({_where(st)})")
+            body = _strip_doc(st.body) if isinstance(st, ast.If) else []
+            if not (isinstance(st, ast.If) and not st.orelse and len(body) == 1 and isinstance(body[0], ast.Raise)):
+                raise Untranslatable(f"{who}: statement {ast.unparse(st)[:80]!r} ({_where(st)})")
+            e = body[0].exc
+            name = e.func.id if isinstance(e, ast.Call) and isinstance(e.func, ast.Name) else None
+            if name not in EXC_TAG or exc not in (None, name):
+                raise Untranslatable(f"{who}: raise {ast.unparse(e) if e else ''}")
+            exc = name
+            (after if state["assigned"] else before).append((mt.cond(st.test), ast.unparse(st.test)))
+            src.append(f"if {ast.unparse(st.test)}: raise {name}")
+        if not state["assigned"]:
+            raise Untranslatable(f"{who}: self.{battr} is never assigned the maximum of {xname}")
+        return dict(before=before, after=after, guards=before + after, exc=exc, x=xname, src="; ".join(src))
+
+    def emit_setb(self, c: ClassInfo, P: list):
+        o = c.setb
+        P.append(f"/-- `{c.name}.set_maximum_parameter_b({o['x']})`: the attribute `self._b` after the call (also when the call raises).\n"
+                 f"`b` is the attribute before the call (`none` = `None`), `x_max` is `np.max({o['x']})`:\n"
+                 f"  `if self.b is None: {o['src']}`. -/")
+        if o["before"]:
+            # a guard that raises before the assignment leaves the attribute `None`
+            P.append("def set_maximum_parameter_b [DecidableLT K] [DecidableLE K] (b : Option K) (x_max : K) : Option K :=\n  match b with\n"
+                     "  | none => if " + " ∨ ".join(g[0] for g in o["before"]) + " then none else some x_max\n  | some v => some v\n")
+        else:
+            P.append("def set_maximum_parameter_b [DecidableLT K] [DecidableLE K] (b : Option K) (x_max : K) : Option K :=\n"
+                     "  match b with\n  | none => some x_max\n  | some v => some v\n")
+        if o["guards"]:
+            P.append(f"/-- `{c.name}.set_maximum_parameter_b` raises `{o['exc']}`:\n"
+                     + "\n".join(f"  `if self.b is None: …; if {g[1]}: raise {o['exc']}`" for g in o["guards"]) + " -/")
+            P.append("def set_maximum_parameter_b_raises (b : Option K) (x_max : K) : Prop :=\n  b.isNone = true ∧ ("
+                     + " ∨ ".join(g[0] for g in o["guards"]) + ")\n")
+        else:
+            P.append(f"/-- `{c.name}.set_maximum_parameter_b` never raises. -/")
+            P.append("def set_maximum_parameter_b_raises (b : Option K) (x_max : K) : Prop := False\n")
+        P.append("instance [DecidableLT K] [DecidableLE K] (b : Option K) (x_max : K) :\n"
+                 "    Decidable (set_maximum_parameter_b_raises b x_max) := by\n  unfold set_maximum_parameter_b_raises; exact inferInstance\n")
 
     def parse_init(self, c: ClassInfo):
         init = c.methods.get("__init__")
@@ -797,6 +927,13 @@ class Module:
                    uses_self=mt.uses_self or (not c.is_base and not mt.static), uses_size=mt.uses_size, exc=mt.exc, scalar=None, defaults={}, deps=mt.deps)
         if out["raises"] is None:
             out["exc"] = None
+        out["warns"] = render_raises(items, kind="warn")
+        kinds = sorted({(it[2], it[3]) for it in items if it[0] == "warn"})
+        if len(kinds) > 1:
+            raise Untranslatable(f"{c.name}.{fn.name}: warnings of different category / stacklevel")
+        out["warn_kind"] = kinds[0] if kinds else None
+        if out["warns"] is not None and mt.uses_size:
+            raise Untranslatable(f"{c.name}.{fn.name}: warning in a method that looks at the size of its argument")
         for p, d in mt.defaults.items():
             out["defaults"][_ident(p)] = lit(d.value, d) if isinstance(d, ast.Constant) else None
             if out["defaults"][_ident(p)] is None:
@@ -827,6 +964,9 @@ class Module:
                 raises={m: EXC_TAG[c.out[m]["exc"]] for m in c.order if c.out[m]["raises"] is not None},
                 ends={k: (ast.unparse(v) if isinstance(v, ast.AST) else v) for k, v in c.ends.items()},
                 static={m: dict(params=o["params"], exc=(EXC_TAG[o["exc"]] if o["exc"] else None)) for m, o in c.static.items()},
+                warns={m: list(c.out[m]["warn_kind"]) for m in c.order if c.out[m].get("warns") is not None},
+                setb=(dict(guards=[g[1] for g in c.setb["guards"]], exc=(EXC_TAG[c.setb["exc"]] if c.setb["exc"] else None))
+                      if getattr(c, "setb", None) is not None else None),
             )
         return d
 
@@ -858,6 +998,17 @@ class Module:
                          + f" :\n    Decidable ({lname}_raises " + " ".join((["f" if c.is_base else "t"] if selfb else [])
                                                                            + ([f"{o['params'][0]}_size"] if size else []) + o["params"])
                          + f") := by\n  unfold {lname}_raises; exact inferInstance\n")
+        if o.get("warns") is not None:
+            cat, level = o["warn_kind"]
+            parts.append(f"/-- {src} issues `{cat}` (`warnings.warn(…, stacklevel={level})`) under this condition (element-wise where it "
+                         f"looks at the argument); the returned value does not depend on it. -/")
+            parts.append(f"def {lname}_warns " + " ".join(selfb + argb) + " : Prop :=\n" + o["warns"] + "\n")
+            parts.append(f"instance [DecidableLT K] [DecidableLE K] " + " ".join(selfb + argb)
+                         + f" :\n    Decidable ({lname}_warns " + " ".join((["f" if c.is_base else "t"] if selfb else []) + o["params"])
+                         + f") := by\n  unfold {lname}_warns; exact inferInstance\n")
+            parts.append(f"/-- `stacklevel` of the warning of {src}: the frame the warning is attributed to (1 = the method itself, "
+                         f"2 = its caller). -/")
+            parts.append(f"def {lname}_warn_stacklevel : Nat := {level}\n")
 
 
     def end_text(self, c: ClassInfo, node):
@@ -962,6 +1113,8 @@ class Module:
                 bind = f"(t : {c.name} K)" if "t." in text else f"(_t : {c.name} K)"
                 P.append(f"/-- `{key}`: `{ast.unparse(node)}`. -/\ndef {key} {bind} : K := {text}\n")
             self.emit_intervals(c, P)
+            if getattr(c, "setb", None) is not None:
+                self.emit_setb(c, P)
             for m in c.order:
                 self.emit_method(c, m, P)
             for m in c.static:
@@ -1062,6 +1215,40 @@ class Module:
                 if o["guards"]:
                     L.append(f"  | \"{c.name}\", \"{m}\" => some \"{EXC_TAG[o['exc']]}\"")
         L.append("  | _, _ => none\n")
+        L.append("/-- Does the method body issue its warning at the element `x`?  `none`: the method has no `warnings.warn`. -/")
+        L.append("def warnsOf [DecidableLT K] [DecidableLE K] (cls meth : String) (ps : List K) (trim : Bool) (x : K) :\n"
+                 "    Option Bool :=\n  match cls, meth, ps with")
+        for c in plain:
+            ks, bs, _ = build(c)
+            for m in c.order:
+                o = c.out[m]
+                if o.get("warns") is not None and len(o["params"]) == 1:
+                    args = ([struct(c, ks, bs)] if o["uses_self"] else []) + ["x"]
+                    L.append(f"  | \"{c.name}\", \"{m}\", [{', '.join(ks)}] => some (decide ({c.name}.{_ident(m)}_warns {' '.join(args)}))")
+        L.append("  | _, _, _ => none\n")
+        L.append("/-- Category and `stacklevel` of the warning in a method body. -/")
+        L.append("def warnKindOf (cls meth : String) : Option (String × Nat) :=\n  match cls, meth with")
+        for c in [self.base] + self.transforms:
+            for m in c.order:
+                if c.out[m].get("warns") is not None:
+                    L.append(f"  | \"{c.name}\", \"{m}\" => some (\"{c.out[m]['warn_kind'][0]}\", {c.name}.{_ident(m)}_warn_stacklevel)")
+        L.append("  | _, _ => none\n")
+        L.append("/-- `set_maximum_parameter_b` of the class `cls`: the attribute `b` after the call. -/")
+        L.append("def setbOf [DecidableLT K] [DecidableLE K] (cls : String) (b : Option K) (x_max : K) : Option (Option K) :=\n  match cls with")
+        for c in self.transforms:
+            if getattr(c, "setb", None) is not None:
+                L.append(f"  | \"{c.name}\" => some ({c.name}.set_maximum_parameter_b b x_max)")
+        L.append("  | _ => none\n")
+        L.append("def setbRaisesOf [DecidableLT K] [DecidableLE K] (cls : String) (b : Option K) (x_max : K) : Option Bool :=\n  match cls with")
+        for c in self.transforms:
+            if getattr(c, "setb", None) is not None:
+                L.append(f"  | \"{c.name}\" => some (decide ({c.name}.set_maximum_parameter_b_raises (K := K) b x_max))")
+        L.append("  | _ => none\n")
+        L.append("def setbRaisesKindOf (cls : String) : Option String :=\n  match cls with")
+        for c in self.transforms:
+            if getattr(c, "setb", None) is not None and c.setb["exc"]:
+                L.append(f"  | \"{c.name}\" => some \"{EXC_TAG[c.setb['exc']]}\"")
+        L.append("  | _ => none\n")
         # methods on a transform object
         b = self.base
         L.append("/-- A method of a transform object, by name (the five of the class, then the inherited ones). -/")
